@@ -13,7 +13,7 @@ from .const import (
 from ._validate_common import ValidationError, ValidationErrorData
 from .schema import extract_record_type, extract_logical_type, schema_name, parse_schema
 from .logical_writers import LOGICAL_WRITERS
-from ._schema_common import UnknownType
+from ._schema_common import UnknownType, default_to_datum
 from .types import Schema, NamedSchemas
 
 NoValue = object()
@@ -149,7 +149,13 @@ def _validate_record(datum, schema, named_schemas, parent_ns, raise_errors, opti
         and not ("-type" in datum and datum["-type"] != schema["name"])
         and all(
             _validate(
-                datum=datum.get(f["name"], f.get("default", NoValue)),
+                datum=(
+                    datum[f["name"]]
+                    if f["name"] in datum
+                    else default_to_datum(f["default"], f["type"], named_schemas)
+                    if "default" in f
+                    else NoValue
+                ),
                 schema=f["type"],
                 named_schemas=named_schemas,
                 field=f"{fullname}.{f['name']}",
